@@ -234,7 +234,7 @@ func c18LuaVerdict(c *core.Ctx) {
 // ---------------------------------------------------------------------------------------------
 
 func init() {
-	addRule("C12", &core.Rule{ID: "C12.reload-script", Floor: 3, Run: c12ReloadScript,
+	addRule("C12", &core.Rule{ID: "C12.reload-script", Floor: 4, Run: c12ReloadScript,
 		Doc: "rootfs/haproxy-reload.sh (run by reloadEmbeddedDaemon, whose exit status is the verdict of the reload): `set -e` is the first command, every haproxy invocation loads the configuration directory it was given (-f \"$PARAM_CFG\") and hands over from the old process (-sf $OLD_PID), and none of them has its exit status masked (`||`, `;`, `&`, a pipe). Decided on the script's lines with comments removed (shell is not parsed)."})
 }
 
@@ -269,6 +269,53 @@ func c12ReloadScript(c *core.Ctx) {
 			c.Violated("the script does not mask failures", rel, "`"+l+"`")
 		}
 	}
+	// Under `set -e` every command of the script is a possible reason for the reload to be reported as
+	// failed (and retried for ever) or, when masked, as done: the command lines are compared with the
+	// reviewed list. This is a frozen fragment of a 15-command script, stated as such in DESIGN.md.
+	want := reloadScriptLines
+	cnt := map[string]int{}
+	for _, l := range want {
+		cnt[l]++
+	}
+	for _, l := range lines {
+		cnt[l]--
+	}
+	var missing, extra []string
+	for _, k := range sortedKeys(cnt) {
+		for i := 0; i < cnt[k]; i++ {
+			missing = append(missing, k)
+		}
+		for i := 0; i < -cnt[k]; i++ {
+			extra = append(extra, k)
+		}
+	}
+	c.Check(len(missing) == 0 && len(extra) == 0, "the commands of the reload script are the reviewed ones", rel, fmt.Sprintf("%d commands", len(want)),
+		"commands that disappeared: ["+strings.Join(missing, " ;; ")+"]; new commands: ["+strings.Join(extra, " ;; ")+"]")
+}
+
+var reloadScriptLines = []string{
+	"set -e",
+	"PARAM_STRATEGY=\"$1\"",
+	"PARAM_CFG=\"$2\"",
+	"PARAM_LOCAL_FS_PREFIX=\"$3\"",
+	"PARAM_STATE=\"${4:-0}\"",
+	"HAPROXY_SOCKET=\"${PARAM_LOCAL_FS_PREFIX}/var/run/haproxy/admin.sock\"",
+	"HAPROXY_STATE=\"${PARAM_LOCAL_FS_PREFIX}/var/lib/haproxy/state-global\"",
+	"HAPROXY_PID=\"${PARAM_LOCAL_FS_PREFIX}/var/run/haproxy/haproxy.pid\"",
+	"OLD_PID=$(cat \"$HAPROXY_PID\" 2>/dev/null || :)",
+	"if [ \"$PARAM_STATE\" != \"0\" ]; then",
+	"if [ -S \"$HAPROXY_SOCKET\" ]; then",
+	"echo \"show servers state\" | socat \"$HAPROXY_SOCKET\" - > /tmp/state && mv /tmp/state \"$HAPROXY_STATE\"",
+	"fi",
+	"if [ ! -s \"$HAPROXY_STATE\" ]; then",
+	"echo \"#\" > \"$HAPROXY_STATE\"",
+	"fi",
+	"fi",
+	"if [ \"$PARAM_STRATEGY\" != \"native\" ] && [ -S \"$HAPROXY_SOCKET\" ]; then",
+	"haproxy -f \"$PARAM_CFG\" -p \"$HAPROXY_PID\" -D -sf $OLD_PID -x \"$HAPROXY_SOCKET\"",
+	"else",
+	"haproxy -f \"$PARAM_CFG\" -p \"$HAPROXY_PID\" -D -sf $OLD_PID",
+	"fi",
 }
 
 // ---------------------------------------------------------------------------------------------
